@@ -332,7 +332,7 @@ func ersInput(cl client.Client, ns, edsName, rsName string, aff bool, rec *ersct
 	inBackoff := []string{}
 	for k := range nl.Items {
 		cnodes = append(cnodes, canon.CNode(&nl.Items[k], ns, edsName))
-		if rec != nil && rec.VerifBackoff().IsInBackOffSinceUpdate(ersctl.VerifBackoffKey(storedRS, nl.Items[k].Name), time.Now()) {
+		if rec != nil && rec.VerifBackoff().IsInBackOffSinceUpdate(ersctl.VerifBackoffKey(storedRS, nl.Items[k].Name), rec.VerifBackoff().Clock.Now()) {
 			inBackoff = append(inBackoff, nl.Items[k].Name)
 		}
 	}
@@ -365,7 +365,7 @@ func runErsReconcile(rec *ersctl.Reconciler, cl client.Client, wl *writeLog, ns,
 	})
 	t1 := time.Now()
 	nowC := canon.T(t0)
-	lo, hi := canon.T(t0.Truncate(time.Second)), canon.T(t1)
+	lo, hi := canon.T(t0), canon.T(t1)
 	out := ersOutJ{Kind: "ok", Deleted: []string{}, LabelAdds: []string{}, LabelRemoves: []string{}, Creates: []createdJ{}, Order: wl.Order, Foreign: []string{}}
 	if out.Order == nil {
 		out.Order = []string{}
